@@ -223,24 +223,36 @@ Lemma sim_pure_eq {X} s o (r : res X) : RS s o ->
   sim s o (lift_res r) (lift_res r) (fun _ a b => a = b).
 Proof. intro HS. apply sim_lift; [assumption|]. intros y E. eauto. Qed.
 
-Lemma sim_assign_forward m accs : forall s o coll vcoll E EB acc vacc, RS s o -> Rws s coll vcoll -> RE s E EB ->
-  Forall2 (Racc s) acc vacc ->
-  sim s o (assign_forward bops P eA m accs coll E acc) (assign_forward tops P eB m accs vcoll EB vacc)
-    (fun s' r v => Forall2 (Racc s') (fst r) (fst v) /\ RE s' (snd r) (snd v)).
+Lemma sim_assign_indexes m accs : forall s o E EB acc vacc, RS s o -> RE s E EB -> Rwss s acc vacc ->
+  sim s o (assign_indexes bops P eA m accs E acc) (assign_indexes tops P eB m accs EB vacc)
+    (fun s' r v => Rwss s' (fst r) (fst v) /\ RE s' (snd r) (snd v)).
 Proof.
-  induction accs as [|a accs IH]; intros s o coll vcoll E EB acc vacc HS Hc HE Hacc; cbn [assign_forward].
-  - apply sim_ret; [assumption|]. split; assumption.
+  induction accs as [|a accs IH]; intros s o E EB acc vacc HS HE Hacc; cbn [assign_indexes].
+  - apply sim_ret; [assumption|]. split; [apply F2_rev; assumption|assumption].
+  - destruct a as [arr_ty idx|tup_ty i|st_ty fld]; try (eapply IH; eauto).
+    eapply sim_bind; [apply sim_pure_eq; assumption|]. snext as pa pb Hpq. subst pb. destruct pa as [eb0 num].
+    scall He as iw E1 viw EB1 Hiw HE1. sbindn sim_m_extend as iw' viw' Hiw'.
+    sbindn sim_bounds_check as u vu Hu. eapply IH; eauto. constructor; assumption.
+Qed.
+
+Lemma sim_assign_forward accs : forall s o coll vcoll idxs vidxs acc vacc, RS s o -> Rws s coll vcoll ->
+  Rwss s idxs vidxs -> Forall2 (Racc s) acc vacc ->
+  sim s o (assign_forward bops P accs coll idxs acc) (assign_forward tops P accs vcoll vidxs vacc)
+    (fun s' r v => Forall2 (Racc s') r v).
+Proof.
+  induction accs as [|a accs IH]; intros s o coll vcoll idxs vidxs acc vacc HS Hc Hidx Hacc; cbn [assign_forward].
+  - apply sim_ret; assumption.
   - pose proof (RS_ins _ _ _ _ HS) as Hi0. destruct a as [arr_ty idx|tup_ty i|st_ty fld].
     + eapply sim_bind; [apply sim_pure_eq; assumption|]. intros s1 o1 p q He1 HS1 Hpq. cbn beta in Hpq. subst q. destruct p as [eb num].
       pose proof (Raccs_mono _ _ _ _ He1 Hi0 Hacc) as Hacc1. lift_to He1. clear HS Hacc Hi0.
       pose proof (RS_ins _ _ _ _ HS1) as Hi1.
-      eapply sim_bind; [eapply He; eauto|]. intros s2 o2 [iw E1] [viw EB1] He2 HS2 [Hiw HE1]. cbn [fst snd] in Hiw, HE1.
+      destruct Hidx as [|iw viw ir vir Hiw Hir]; [apply sim_crash|].
+      eapply sim_bind; [eapply sim_index_layers; eauto; apply F2_rev; assumption|].
+      intros s2 o2 arr' varr' He2 HS2 Harr'. cbn beta in Harr'.
       pose proof (Raccs_mono _ _ _ _ He2 Hi1 Hacc1) as Hacc2. lift_to He2. clear HS1 Hacc1 Hi1.
-      pose proof (RS_ins _ _ _ _ HS2) as Hi2.
-      eapply sim_bind; [eapply sim_array_read; eauto|].
-      intros s3 o3 [coll' iw'] [vcoll' viw'] He3 HS3 [Hcoll' Hiw']. cbn [fst snd] in Hcoll', Hiw'.
-      pose proof (Raccs_mono _ _ _ _ He3 Hi2 Hacc2) as Hacc3. lift_to He3. clear HS2 Hacc2 Hi2.
-      eapply IH; eauto. constructor; [|assumption]. cbn. auto.
+      eapply IH; eauto.
+      * destruct Harr'; [apply Rws_repeat; eapply Rw_wF; eauto|constructor; assumption].
+      * constructor; [|assumption]. cbn. auto.
     + eapply sim_bind; [apply sim_pure_eq; assumption|]. intros s1 o1 p q He1 HS1 Hpq. cbn beta in Hpq. subst q. destruct p as [wb wi].
       pose proof (Raccs_mono _ _ _ _ He1 Hi0 Hacc) as Hacc1. lift_to He1. clear HS Hacc Hi0.
       pose proof (RS_ins _ _ _ _ HS1) as Hi1.
@@ -393,12 +405,11 @@ Proof.
     apply sim_ret; [assumption|]. split; [constructor|assumption].
   - (* assignment *)
     scall He as value E1 vvalue EB1 Hvalue HE1.
+    eapply sim_bind; [eapply sim_assign_indexes; eauto; constructor|].
+    snext as pa pb HR. destruct pa as [idxs E2], pb as [vidxs EB2]. cbn [fst snd] in HR. destruct HR as [Hidxs HE2].
     sbindn sim_env_get as coll vcoll Hcoll.
     eapply sim_bind; [eapply sim_assign_forward; eauto; constructor|].
-    match goal with |- forall s1 o1 x y, extS ?sc s1 -> _ => match goal with HSc : SimBase.RS _ _ sc _ |- _ => rename HSc into HScur end end.
-    pose proof (RS_ins _ _ _ _ HScur) as Hic.
-    intros sX oX [accd E2] [vaccd EB2] HeX HSX [Haccd HE2]. cbn [fst snd] in Haccd, HE2.
-    lift_to HeX. clear HScur Hic.
+    snext as accd vaccd Haccd.
     sbindn sim_assign_backward as value' vvalue' Hvalue'.
     eapply sim_bind with (R := fun s' r v => RE s' r v).
     { apply sim_lift; [assumption|]. intros y Ey. eapply rel_env_assign; eauto. }
